@@ -27,8 +27,12 @@ Scn == [layout : Layouts, issuer : Issuers, signKey : Keys, embedded : Keys \cup
         flag : BOOLEAN, level : {"response", "assertion", "request"},
         \* for assertion-level signatures: the Issuer of the enclosing (unsigned) Response -- the same entity, or one of the
         \* known identity providers.  Trust follows the Issuer of the element that is signed, not the envelope it travels in.
-        outer : {"same", "idp1", "idp2"}]
-WellFormed(s) == s.outer # "same" => s.level = "assertion" /\ s.outer # s.issuer
+        outer : {"same", "idp1", "idp2"},
+        \* priorEnc: the same metadata store was asked for the issuer's *encryption* certificates just before (as an entity
+        \* does whenever it encrypts something for that peer).  What is trusted for signing does not depend on it.
+        priorEnc : BOOLEAN]
+WellFormed(s) == /\ s.outer # "same" => s.level = "assertion" /\ s.outer # s.issuer
+                 /\ s.priorEnc => s.outer = "same" /\ s.layout \in {"signAndEnc", "encOnly", "sign"} /\ s.embedded = "none"
 
 VARIABLES scn, pc, certs, verdict
 vars == <<scn, pc, certs, verdict>>
